@@ -232,3 +232,12 @@ func replayOnly(t *testing.T) {
 		t.Skip("no VERIF_REPLAY")
 	}
 }
+
+func replayPath() string { return os.Getenv("VERIF_REPLAY") }
+
+// firstShard is true in the shard that runs the once-per-check parts
+// (enumerations, corpus replay).
+func firstShard() bool {
+	s := os.Getenv("VERIF_SHARD_INDEX")
+	return s == "" || s == "0"
+}
